@@ -22,7 +22,11 @@ property and a scratch worktree of /repo (nothing from /verif). Each compiles,
 passes the repository's suite, and comes with a demonstration that fails with
 it and passes without it (`seeded/<id>/demo`, logs of my own confirmation run
 next to it). `meta.json` of each records what it needs to manifest and what I
-ran. All of them are caught by the quick tier now; %d were missed by the first
+ran. All of them are caught now - at the quick budget on an idle machine, with
+two qualifications: on a loaded machine (several checks at once) the race-detector
+build of C13 needs two to five times the budget, and `agent-c13c` (a race that needs
+a worker parked inside one particular inner-join iteration) takes about 150 s of
+budget; %d were missed by the first
 version of the respective check and led to a strengthening that is described
 in the `history` field of their `meta.json` and summarised in §11.
 
